@@ -150,6 +150,9 @@ func (f *fsm) run() {
 			case <-f.closeCh:
 				t = newStateTransition(t.from, disabledState)
 			case t = <-f.peer.getFSMTransitionCh(f):
+				if verifEnabled && verifFSMHook != nil {
+					verifFSMHook(f.peer.config.RemoteAddress, f.dir == out)
+				}
 			}
 		case <-f.closeCh:
 			t = newStateTransition(t.from, disabledState)
